@@ -246,7 +246,11 @@ func (fr *Frame) indexAddrV(st *State, x Value, idx *Term) Value {
 		case *AggV:
 			fr.boundsCheck(st, idx, F.I64(int64(len(cc.Elems))), "index")
 		case *ArrV:
-			// pointer to a fixed array carved out of a symbolic array: bounds were checked at conversion
+			// pointer to a fixed array carved out of a symbolic array: bounds were checked at conversion;
+			// package-level tables modelled as symbolic arrays carry their declared length
+			if n, ok := fr.v.globalArrLen[a.Obj]; ok {
+				fr.boundsCheck(st, idx, F.I64(n), "index")
+			}
 		}
 		pe := PE{T: idx}
 		if idx.IsConst() {
@@ -291,7 +295,8 @@ func (fr *Frame) sliceOp(st *State, i *ssa.Slice) Value {
 	case *SliceV:
 		isStr := isString(i.X.Type())
 		lim := a.Cap
-		if isStr {
+		if isStr || (fr.v.strictSliceLen && max == nil) {
+			// strict mode: a re-slice may not expose elements beyond len (the property forbids reading them)
 			lim = a.Len
 		}
 		if hi == nil {
@@ -386,8 +391,10 @@ func (fr *Frame) makeSlice(st *State, i *ssa.MakeSlice) Value {
 	var zero *Term
 	if s == SBool {
 		zero = F.False()
-	} else {
+	} else if s == SInt {
 		zero = F.I64(0)
+	} else {
+		zero = F.Var("zero."+s.Name, s)
 	}
 	arr := F.App("constarr_"+sanitize(s.Name), arraySort(s), zero)
 	fr.v.constArr = true
